@@ -43,6 +43,8 @@ POOL = [
     ('n4', 'number', '1,234 and 12,345,678', 'en-us', None, None),
     ('n5', 'number', 'dos coma cinco y 1.234,56', 'es-es', None, None),
     ('n6', 'number', '1,234.56 y mil doscientos', 'es-es', None, None),
+    ('z1', 'number', '三分之一和五分之二', 'zh-cn', None, None),
+    ('z2', 'number', '三分の一と百五', 'ja-jp', None, None),
     ('o1', 'ordinal', 'the twenty-first and 3rd', 'en-us', None, None),
     ('p1', 'percentage', 'twenty percent and 3.5%', 'en-us', None, None),
     ('c1', 'currency', '3 dollars and 50 cents', 'en-us', None, None),
